@@ -136,7 +136,7 @@ def main():
                 "quick_cmd": f"./vcheck {pid} --tier quick",
                 "thorough_cmd": f"./vcheck {pid} --tier thorough",
                 "evidence_file": f"/verif/evidence/{pid}.json",
-                "replay_cmd_template": "cat {path}",
+                "replay_cmd_template": "/venv/bin/python /verif/tools/replay.py {path}",
                 "engine": "lean4-proof+correspondence",
                 "level_claimed": {"category": "proof", "text": text, "design_ref": ref},
                 "level_note": NOTE,
